@@ -13,7 +13,7 @@ PROP = {'lean': 'MpsProps.C08',
               'Mps.C08alg.share_changes_iff',
               'Mps.C08alg.doerner_refresh_preserves_sum',
               'Mps.C08alg.doerner_refreshes_preserve_sum'],
- 'generated': ['Mps.AlgGen.gen_doernerKeygenShares', 'Mps.AlgGen.gen_frostRefreshStart'],
+ 'generated': ['Mps.Src.SrcCmpKeygen.gen_source', 'Mps.Src.SrcFrostKeygen.gen_source', 'Mps.Src.SrcDoernerKeygen.gen_source', 'Mps.AlgGen.gen_doernerKeygenShares', 'Mps.AlgGen.gen_frostRefreshStart'],
  'suites': [{'name': 'sess-refresh', 'quick': 12, 'thorough': 200, 'shards': 8}, {'name': 'alg', 'quick': 600, 'thorough': 28000, 'shards': 8}],
  'propfields': {'sess-refresh': ['ok'], 'alg': ['valid', 'match', 'ok']},
  'level_text': 'Proof + judged sessions: the algebra behind the property is a set of Lean theorems over an arbitrary field / module (see theorem '
